@@ -476,7 +476,7 @@ func TestC11(t *testing.T) {
 	if explicit {
 		return
 	}
-	vcore.Check(t, vcore.N(1200, 4000), func(rt *rapid.T) {
+	vcore.Check(t, vcore.N(1200, 12000), func(rt *rapid.T) {
 		c := gen(rt)
 		v, s := run(c)
 		account(c, s)
